@@ -98,6 +98,20 @@ BAIT = [
     _op("ADD", _op("EQ", X, Y), _op("ISZERO", _op("XOR", X, Y))), _op("SUB", _op("NOT", _op("NOT", X)), _op("NOT", X)),
 ]
 
+# used by the deterministic sweeps only (the block grammar keeps drawing from BAIT, so its random streams do not move)
+BAIT_NEAR = [
+    # near misses of the rules that match two operands of two terms: the shared operand sits in the other position, so the
+    # rule must NOT fire (a matcher that asks "does the operand occur" instead of "is it the same position" fires here)
+    _op("AND", _op("SHL", X, Y), _op("SHL", Z, X)), _op("AND", _op("SHL", Y, X), _op("SHL", X, Z)),
+    _op("AND", _op("SHL", X, Y), _op("SHL", Y, X)), _op("AND", _op("SHR", X, Y), _op("SHR", Z, X)),
+    _op("AND", _op("SHL", _c(1), Y), _op("SHL", Z, _c(1))), _op("AND", _op("SHR", Y, _c(2)), _op("SHR", _c(2), Z)),
+    _op("AND", _op("SHL", X, Y), _op("SHR", X, Z)),
+    _op("MUL", X, _op("SHL", _c(1), Y)), _op("DIV", X, _op("SHL", _c(1), Y)), _op("DIV", _op("SHL", Y, _c(1)), X),
+    _op("EQ", _c(2), _op("ISZERO", X)), _op("GT", X, _c(1)), _op("LT", _c(1), X),
+    _op("AND", X, _op("NOT", Y)), _op("OR", _op("OR", X, Y), Z), _op("XOR", X, _op("XOR", Y, Z)),
+    _op("ISZERO", _op("ISZERO", _op("SUB", X, Y))), _op("SUB", _op("ADD", X, Y), Z),
+]
+
 
 def pseudo_operand(r, name):
     """Operand spellings as solc writes them (see the shipped examples)."""
